@@ -292,7 +292,11 @@ class _CpuTimeout(Exception):
     pass
 
 
+_NTIMEOUTS = [0]
+
+
 def _vtalarm(signum, frame):
+    _NTIMEOUTS[0] += 1
     raise _CpuTimeout()
 
 
@@ -300,7 +304,9 @@ def _vtalarm(signum, frame):
 def cpu_limit(seconds):
     """Like core.time_limit but counts the CPU time of this process, so a loaded machine cannot fake a hang."""
     old = signal.signal(signal.SIGVTALRM, _vtalarm)
-    signal.setitimer(signal.ITIMER_VIRTUAL, seconds)
+    # once a process has met several requests that never return, the remaining ones get a short limit: every one of
+    # them is reported anyway, and a tree that hangs on most requests must not cost hours
+    signal.setitimer(signal.ITIMER_VIRTUAL, seconds if _NTIMEOUTS[0] < 5 else min(seconds, 0.1))
     try:
         yield
     finally:
@@ -312,7 +318,7 @@ def cpu_limit(seconds):
 def _armed_cpu_limit(seconds):
     """cpu_limit for callers that already installed the SIGVTALRM handler and an outer core.time_limit
     (the search loop): two system calls per case instead of eight."""
-    signal.setitimer(signal.ITIMER_VIRTUAL, seconds)
+    signal.setitimer(signal.ITIMER_VIRTUAL, seconds if _NTIMEOUTS[0] < 5 else min(seconds, 0.1))
     try:
         yield
     finally:
